@@ -581,6 +581,134 @@ def refusal_race(ctx, k):
         d.close()
 
 
+def late_work_race(ctx, k):
+    """Work for a client that is queued or arrives while its transport is
+    being torn down: (a) a frame of that transport (the header of a binary
+    event) delivered while one of its disconnect handlers is still running -
+    engine.io keeps delivering for a socket that is closing; (b) asyncio: an
+    emit with a callback to the client issued while the loss of its transport
+    is already queued in the loop.  Once everything has finished the server
+    holds nothing of the client (no half-received packet, no callback)."""
+    import asyncio
+    import threading
+    from engineio import packet as eio_packet
+    from vlib import drive as D
+    from vlib import refcodec as RR
+    rng = ctx.case_rng(10 * 10 ** 7 + k)
+    kind = 'sync' if k % 2 == 0 else 'async'
+    variant = 'frame_during_teardown' if kind == 'sync' or \
+        rng.random() < 0.5 else 'emit_callback_vs_queued_loss'
+    w = {'part': 'late_work_race', 'case_index': k, 'kind': kind,
+         'variant': variant}
+    state = {'armed': False}
+    header = RR.encode(RR.EVENT, '/', None, ['ev', b'a', b'b'])[0]
+    if kind == 'async':
+        d = D.AsyncDrive()
+
+        async def on_disconnect(sid, reason):
+            if state['armed'] and variant == 'frame_during_teardown':
+                state['entered'].set()
+                await state['release'].wait()
+    else:
+        d = D.SyncDrive()
+        state['entered'] = threading.Event()
+        state['release'] = threading.Event()
+
+        def on_disconnect(sid, reason):
+            if state['armed']:
+                state['entered'].set()
+                state['release'].wait(10)
+    d.sio.on('connect', lambda sid, environ, auth=None: None, namespace='/')
+    d.sio.on('disconnect', on_disconnect, namespace='/')
+    d.sio.on('ev', lambda sid, *a: None, namespace='/')
+    try:
+        t0 = d.open()
+        t0.connect('/')
+        t0.lose()
+        d.transports = [t for t in d.transports if t.alive]
+        d.clear_errors()
+        base = G.measure(d.sio, extra_skip=(d,))
+        t = d.open()
+        t.connect('/')
+        sid = t.sids['/']
+        state['armed'] = True
+        if kind == 'async' and variant == 'frame_during_teardown':
+            async def go():
+                state['entered'] = asyncio.Event()
+                state['release'] = asyncio.Event()
+                task = asyncio.ensure_future(t.socket.close(
+                    wait=False, abort=True,
+                    reason=d.eio.reason.TRANSPORT_ERROR))
+                await state['entered'].wait()
+                await t.socket.receive(eio_packet.Packet(
+                    eio_packet.MESSAGE, header))
+                state['release'].set()
+                await task
+            d.run(go())
+        elif kind == 'async':
+            n_yield = rng.choice([0, 0, 1, 2])
+
+            async def go():
+                task = asyncio.ensure_future(t.socket.close(
+                    wait=False, abort=True,
+                    reason=d.eio.reason.TRANSPORT_ERROR))
+                for _ in range(n_yield):
+                    await asyncio.sleep(0)
+                try:
+                    await d.sio.emit('x', 1, to=sid, namespace='/',
+                                     callback=lambda *a: None)
+                except Exception as e:
+                    w['emit_raised'] = repr(e)
+                await task
+            w['yields_before_emit'] = n_yield
+            d.run(go())
+        else:
+            d.autojoin = False
+            th = threading.Thread(target=lambda: t.socket.close(
+                wait=False, abort=True,
+                reason=d.eio.reason.TRANSPORT_ERROR), daemon=True)
+            th.start()
+            if not state['entered'].wait(10):
+                raise core_bug('disconnect handler was not reached')
+            t.socket.receive(eio_packet.Packet(eio_packet.MESSAGE, header))
+            state['release'].set()
+            th.join(10)
+            d.join()
+        state['armed'] = False
+        d._reap(t)
+        d.transports = [x for x in d.transports if x.alive]
+        d.clear_errors()
+        ctx.count('late_work_races')
+        m = d.sio.manager
+        size = G.measure(d.sio, extra_skip=(d,))
+        w['internals'] = jsonable({
+            'callbacks': {str(kk): len(v) for kk, v in m.callbacks.items()},
+            'binary_packet_keys': len(d.sio._binary_packet),
+            'environ_keys': len(d.sio.environ),
+            'rooms': {str(ns): {str(room): sorted(b.keys())
+                                for room, b in rooms.items()}
+                      for ns, rooms in m.rooms.items()}})
+        if size[0] != base[0]:
+            w['graph_growth'] = G.diff(base[1], size[1])
+            ctx.violation(None, '%s: after the client has gone the objects '
+                          'reachable from the server grew from %d to %d '
+                          '(callbacks %r, half-received packets %d)' % (
+                              variant.replace('_', ' '), base[0], size[0],
+                              w['internals']['callbacks'],
+                              w['internals']['binary_packet_keys']), w)
+            return
+        ctx.case(('late_work_race', kind, variant,
+                  w.get('yields_before_emit')), w)
+    finally:
+        state['armed'] = False
+        try:
+            if kind == 'sync':
+                state['release'].set()
+        except Exception:
+            pass
+        d.close()
+
+
 def core_bug(msg):
     from vlib import core
     return core.CheckBug(msg)
@@ -619,6 +747,8 @@ def f2(v, old, new):
 def run_case(ctx, k):
     if k % 5 == 3:
         refusal_race(ctx, k)
+    if k % 5 == 1:
+        late_work_race(ctx, k + (k // 5) % 2)
     rng = ctx.case_rng(k)
     c = Case(ctx, rng, 'sync' if k % 2 == 0 else 'async', k)
     try:
@@ -648,6 +778,7 @@ def run(ctx):
     ctx.require('generations', 50)
     ctx.require('fault_positions', 30)
     ctx.require('refusal_races', 10)
+    ctx.require('late_work_races', 10)
     ctx.require('residue_checks', 50)
     ctx.require('graph_size_comparisons', 40)
     ctx.require('probe_traces_compared', 5)
@@ -701,6 +832,8 @@ def replay(ctx, w):
         return c20.run_schedule(ctx, wi['causes'], wi['choices'], None, None,
                                 False, c20.baseline_size(),
                                 wi.get('partial_binary_packet', False))
+    if w['witness'].get('part') == 'late_work_race':
+        return late_work_race(ctx, w['witness']['case_index'])
     if w['witness'].get('part') == 'refusal_race':
         return refusal_race(ctx, w['witness']['case_index'])
     run_case(ctx, w['witness']['case_index'])
